@@ -60,6 +60,18 @@ func nsKeys(ns namer.NameSystems) string {
 	return atoms(ks)
 }
 
+// recViaWriteString: the hooks emit their text with io.WriteString (which uses the destination's
+// WriteString method when it has one) instead of Write
+var recViaWriteString = false
+
+func recEmit(w io.Writer, s string) {
+	if recViaWriteString {
+		io.WriteString(w, s)
+	} else {
+		w.Write([]byte(s))
+	}
+}
+
 func (g *recGen) Name() string { return g.name }
 func (g *recGen) Filter(c *generator.Context, t *types.Type) bool {
 	*g.log = append(*g.log, tag("filter", atom(g.name), ids(c.Order), num(tid(t))))
@@ -86,7 +98,7 @@ func (g *recGen) PackageConsts(c *generator.Context) []string {
 }
 func (g *recGen) Init(c *generator.Context, w io.Writer) error {
 	*g.log = append(*g.log, tag("init", atom(g.name), nsKeys(c.Namers), ids(c.Order)))
-	w.Write([]byte(g.initOut))
+	recEmit(w, g.initOut)
 	if g.initErr {
 		return fmt.Errorf("HOOK:%s:0", g.name)
 	}
@@ -94,7 +106,7 @@ func (g *recGen) Init(c *generator.Context, w io.Writer) error {
 }
 func (g *recGen) GenerateType(c *generator.Context, t *types.Type, w io.Writer) error {
 	*g.log = append(*g.log, tag("type", atom(g.name), num(tid(t))))
-	w.Write([]byte(g.typeOut + t.Name.Name))
+	recEmit(w, g.typeOut+t.Name.Name)
 	if g.typeErr == tid(t) {
 		return fmt.Errorf("HOOK:%s:1", g.name)
 	}
@@ -102,7 +114,7 @@ func (g *recGen) GenerateType(c *generator.Context, t *types.Type, w io.Writer) 
 }
 func (g *recGen) Finalize(c *generator.Context, w io.Writer) error {
 	*g.log = append(*g.log, tag("finalize", atom(g.name)))
-	w.Write([]byte(g.finOut))
+	recEmit(w, g.finOut)
 	if g.finErr {
 		return fmt.Errorf("HOOK:%s:2", g.name)
 	}
@@ -459,6 +471,11 @@ func (w *faultyWriter) Write(p []byte) (int, error) {
 	return n, fwErr{w.eid + w.count - w.failAt}
 }
 
+// the same writer, also offering WriteString (as *os.File, *bufio.Writer and *bytes.Buffer do)
+type faultyStringWriter struct{ *faultyWriter }
+
+func (w faultyStringWriter) WriteString(s string) (int, error) { return w.faultyWriter.Write([]byte(s)) }
+
 func fwErrS(err error) string {
 	if err == nil {
 		return list()
@@ -477,14 +494,27 @@ func c13(g *Gen) {
 		for failAt := 0; failAt <= nw; failAt++ {
 			for _, part := range []int{0, 1, 99} {
 				ws := chunks[:nw]
-				fw := &faultyWriter{failAt: failAt, part: part, eid: 7}
-				et := generator.NewErrorTracker(fw)
-				var rs []string
-				for _, c := range ws {
-					n, err := et.Write([]byte(c))
-					rs = append(rs, list(num(n), fwErrS(err)))
+				for _, viaString := range []bool{false, true} {
+					fw := &faultyWriter{failAt: failAt, part: part, eid: 7}
+					var dest io.Writer = fw
+					cl := "through-Write"
+					if viaString {
+						dest, cl = faultyStringWriter{fw}, "through-io.WriteString"
+					}
+					et := generator.NewErrorTracker(dest)
+					var rs []string
+					for _, c := range ws {
+						var n int
+						var err error
+						if viaString {
+							n, err = io.WriteString(et, c)
+						} else {
+							n, err = et.Write([]byte(c))
+						}
+						rs = append(rs, list(num(n), fwErrS(err)))
+					}
+					g.Emit("C13.tracker", list(num(failAt), num(part), num(7), atoms(ws)), list(list(rs...), atom(string(fw.log)), fwErrS(et.Error())), "tracker", "fault-every-write-index", cl)
 				}
-				g.Emit("C13.tracker", list(num(failAt), num(part), num(7), atoms(ws)), list(list(rs...), atom(string(fw.log)), fwErrS(et.Error())), "tracker", "fault-every-write-index")
 			}
 		}
 	}
@@ -510,7 +540,13 @@ func c13(g *Gen) {
 				}
 				fw := &faultyWriter{failAt: failAt, part: 1, eid: 3}
 				ctx := &generator.Context{Order: orderT, Namers: namer.NameSystems{}}
-				err := ctx.ExecuteBody(fw, rg)
+				var dest io.Writer = fw
+				bodyCls := "through-Write"
+				if (hook+failAt)%2 == 0 {
+					dest, recViaWriteString, bodyCls = faultyStringWriter{fw}, true, "through-io.WriteString"
+				}
+				err := ctx.ExecuteBody(dest, rg)
+				recViaWriteString = false
 				out := list()
 				if err != nil {
 					if m := reHook.FindStringSubmatch(err.Error()); m != nil {
@@ -520,7 +556,7 @@ func c13(g *Gen) {
 						out = tag("writer", fe[1:len(fe)-1])
 					}
 				}
-				g.Emit("C13.body", list(rg.sexp(), list(orderS...), num(failAt), num(1), num(3)), list(atom(string(fw.log)), out), "body", "fault-every-hook", "fault-every-write-index")
+				g.Emit("C13.body", list(rg.sexp(), list(orderS...), num(failAt), num(1), num(3)), list(atom(string(fw.log)), out), "body", "fault-every-hook", "fault-every-write-index", bodyCls)
 			}
 		}
 	}
